@@ -77,7 +77,7 @@ func planC19(tier string, seed int64) (*core.Plan, error) {
 		NonTrivial: func(r core.Rec) bool { return r["chk"] != "skip" },
 		Assumptions: []string{"writer output is parsed by the standard library's encoding/xml (strict), not by the library's patched copy", "interleaved documents are rendered by the harness (dumb renderer: schema order per group, random merge)"},
 	}
-	for _, fname := range []string{"S0", "S1", "S2", "S4"} {
+	for _, fname := range []string{"S0", "S1", "S2", "S4", "S7"} {
 		st, err := xmlStage(fname, r, n/4, nil)
 		if err != nil {
 			return nil, err
